@@ -150,6 +150,73 @@ def tableTranslationWith (sortWords : Bool) (t : Table) (syllabary : List Bytes)
 /-- `TableTranslator::Query` as it is: the iterator is sorted before the first entry is shown -/
 def tableTranslation := tableTranslationWith true
 
+/-! ## sentences of a table-style schema  (`TableTranslator::MakeSentence`, table_translator.cc:547-673;
+`SentenceTranslation` 412-520; static-dictionary branch only — user dictionary and encoder are off)
+
+When `enable_sentence` is on and the plain translation is empty, a word graph is built over the input: from every
+reachable start position the prism's `CommonPrefixSearch` of the rest of the input (DATA, longest key first), each
+key followed by the delimiters after it (`consume_trailing_delimiters` on the rest of the input), an edge for every
+key that has words (`LookupWords`, exact).  `Poet` (ORACLE for the sentence itself) returns a sentence iff the end
+of the input is reachable without the single edge that spans everything.  The translation is the sentence and then
+the words that start the input, longest (with its delimiters) first, each iterator as `LookupWords` left it. -/
+
+/-- `consume_trailing_delimiters(pos, input, delimiters)` -/
+def consumeDelims (delims : Bytes) (input : Bytes) (pos : Nat) : Nat :=
+  pos + ((input.drop pos).takeWhile (fun b => delims.contains b)).length
+
+structure WordGraph where
+  vertices : List Nat                      -- reachable positions (`vertices`)
+  edges : List (Nat × Nat)                 -- (start, end) that got words, in insertion order
+  collector : List (Nat × List Chunk)      -- consumed length ↦ chunks of the words that start the input
+deriving Repr
+
+/-- one prism match at `start` (`max_homographs_` = 1: a second key for the same edge is skipped) -/
+def addMatch (t : Table) (syllabary : List Bytes) (delims input : Bytes) (start : Nat) (w : WordGraph) (m : PrismKey) : WordGraph :=
+  if m.length == 0 then w
+  else
+    let consumed := consumeDelims delims (input.drop start) m.length
+    let endPos := start + consumed
+    if w.edges.contains (start, endPos) then w
+    else
+      let chunks := lookupWords t syllabary m.length [m]
+      if chunks.isEmpty then w
+      else { vertices := endPos :: w.vertices, edges := w.edges ++ [(start, endPos)],
+             collector := if start == 0 then w.collector ++ [(consumed, chunks)] else w.collector }
+
+/-- the body of `for (start_pos = 0; start_pos < input.length(); ++start_pos)`; `cps start` = the prism's
+`CommonPrefixSearch(input.substr(start))` in its own order (the code walks it in reverse) -/
+def wordGraphStep (t : Table) (syllabary : List Bytes) (delims input : Bytes) (cps : Nat → List PrismKey)
+    (w : WordGraph) (start : Nat) : WordGraph :=
+  if w.vertices.contains start then (cps start).reverse.foldl (addMatch t syllabary delims input start) w else w
+
+def wordGraph (t : Table) (syllabary : List Bytes) (delims input : Bytes) (cps : Nat → List PrismKey) : WordGraph :=
+  (List.range input.length).foldl (wordGraphStep t syllabary delims input cps) { vertices := [0], edges := [], collector := [] }
+
+/-- `Poet::MakeSentence` returns a sentence iff `total` is reachable from 0 along edges other than (0, total) -/
+def poetReaches (edges : List (Nat × Nat)) (total : Nat) : Bool :=
+  ((List.range total).foldl (fun (reach : List Nat) s =>
+      if reach.contains s then reach ++ (edges.filter (fun e => e.1 == s && !(s == 0 && e.2 == total))).map (·.2) else reach) [0]).contains total
+
+/-- `SentenceTranslation`: the sentence, then the collector from its largest key down -/
+def sentenceTranslation (w : WordGraph) (start total : Nat) (sentence : Option Cand) : List Cand :=
+  if poetReaches w.edges total then
+    match sentence with
+    | none => []          -- the oracle says Poet found nothing: no translation at all
+    | some s =>
+      s :: ((keysOf w.collector).reverse.flatMap fun k =>
+        (valuesAt w.collector k).flatMap fun chunks =>
+          (drainAll { done := [], rest := chunks }).map fun ce =>
+            { type := "table", start := start, endPos := start + k, text := ce.2.text })
+  else []
+
+/-- `TableTranslator::Query` with `enable_sentence`: the plain translation, or — when that is empty — the sentence
+translation of the whole (untrimmed) input -/
+def tableQuery (t : Table) (syllabary : List Bytes) (delims input : Bytes) (start : Nat) (completion enableSentence : Bool)
+    (exactKey : Option PrismKey) (expansion : List PrismKey) (cps : Nat → List PrismKey) (sentence : Option Cand) : List Cand :=
+  let plain := tableTranslation t syllabary delims input start completion exactKey expansion
+  if !plain.isEmpty || !enableSentence then plain
+  else sentenceTranslation (wordGraph t syllabary delims input cps) start input.length sentence
+
 /-- the translator before the repair of `C07:table:exact-order` (first entry = head of the first chunk) -/
 def tableTranslationOld := tableTranslationWith false
 
